@@ -68,7 +68,7 @@ fn gen_sig(rng: &mut Rng, lang: Lang, h: &mut Hist) -> Vec<P> {
         else {
             let mask = if rng.chance(1, 2) { [0, 0, 0] } else { [rng.below(256) as u8, rng.below(256) as u8, rng.below(256) as u8] };
             let kind = rng.below(10);
-            let bs_choices = [1u32, 2, 4, 4, 4, 8, 16, 3, 0];
+            let bs_choices = [1u32, 2, 4, 4, 4, 8, 16, 3, 4, 4, 2, 1, 16, 4, 8, 4, 4, 0];
             let sz = if kind < 4 && (last || rng.chance(1, 15)) { SSize::Block(*rng.pick(&bs_choices)) }
                 else if kind < 7 { SSize::Pascal(*rng.pick(&bs_choices)) }
                 else { SSize::Fixed(*rng.pick(&[0u32, 1, 2, 4, 8, 8, 16, 32, 5]), rng.chance(1, 3)) };
@@ -118,7 +118,7 @@ fn gen_arg(rng: &mut Rng, lang: Lang, p: &P, h: &mut Hist) -> A {
             let unit = match sz { SSize::Fixed(len, _) => *len as usize, SSize::Block(bs) | SSize::Pascal(bs) => *bs as usize };
             let mult = rng.below(4) as usize;
             let around = (unit * mult) as i64 + rng.range(-2, 2);
-            let target = if rng.chance(1, 10) { rng.below(300) as usize } else { around.max(0) as usize };
+            let target = if rng.chance(1, 25) { rng.below(300) as usize } else if rng.chance(1, 10) { rng.below(40) as usize } else { around.max(0) as usize };
             A { v: V::Str(gen_string(rng, target, h)), reg: false }
         },
         P::Pad(_) => unreachable!(),
@@ -225,7 +225,13 @@ fn run_script(lang: Lang, sigs: &[Vec<P>], calls: &[(usize, Vec<A>)], h: &mut Hi
                     match rng.below(5) {
                         0 => { let k = rng.below(r2.args_blob.len() as u64 + 1) as usize; r2.args_blob.truncate(k); h.bump("damage_truncate"); },
                         1 => { for _ in 0..(1 + rng.below(4)) { r2.args_blob.push(rng.below(3) as u8); } h.bump("damage_extend"); },
-                        2 => { if lang.has_regs() { r2.param_mask ^= 1 << rng.below(16); } h.bump("damage_mask"); },
+                        2 => {
+                            // (not on float parameters: a random float with the register bit set is "a register" only if it is an integer,
+                            //  and then the register id does not determine the bits any more)
+                            let cand: Vec<u32> = (0..16u32).filter(|&i| (i as usize) >= nonpad.len() || !matches!(nonpad[i as usize], P::Float { .. })).collect();
+                            if lang.has_regs() && !cand.is_empty() { r2.param_mask ^= 1 << *rng.pick(&cand); }
+                            h.bump("damage_mask");
+                        },
                         3 => { if !r2.args_blob.is_empty() { let k = rng.below(r2.args_blob.len() as u64) as usize; r2.args_blob[k] ^= 1 << rng.below(8); } h.bump("damage_bitflip"); },
                         _ => { if !r2.args_blob.is_empty() { let k = rng.below(r2.args_blob.len() as u64) as usize; r2.args_blob[k] = 0; } h.bump("damage_zero_byte"); },
                     }
